@@ -60,3 +60,8 @@ CORPUS += [
     M("properties-dict-class-level", C, "class PropertiesResponse(Response):\n    \"\"\"Response to properties query.\"\"\"\n\n    def __init__(self, payload: memoryview) -> None:\n        super().__init__(payload)\n\n        self._properties = {}\n",
       "class PropertiesResponse(Response):\n    \"\"\"Response to properties query.\"\"\"\n\n    _properties: dict = {}\n\n    def __init__(self, payload: memoryview) -> None:\n        super().__init__(payload)\n"),
 ]
+CORPUS += [
+    M("breeze-away-off-skipped", D, "                if (value := res.get_property(PropertyId.BREEZE_AWAY)) is not None:", "                if (value := res.get_property(PropertyId.BREEZE_AWAY)):"),
+    M("property-loop-stops-at-unknown-id", C, "                    \"Unknown property ID 0x%04X, Size: %d.\", raw_id, size)\n                # Advanced to next property\n                props = props[4+size:]\n                continue",
+      "                    \"Unknown property ID 0x%04X, Size: %d.\", raw_id, size)\n                # Advanced to next property\n                props = props[4+size:]\n                break"),
+]
